@@ -32,9 +32,18 @@ pub enum FaultKind {
     CloseBeforeReply,
     /// correct reply, then the connection is closed
     CloseAfterReply,
+    /// (loads) `<load-configuration-results>` holding an error-severity rpc-error and a
+    /// `<load-error-count>`, the shape Junos uses for a failed load; elsewhere like `RpcError`
+    LoadResultsError,
+    /// (loads) error-severity rpc-error inside the results followed by `<ok/>`
+    LoadErrorThenOk,
+    /// (loads) error-severity rpc-error inside the results followed by `<ok></ok>`
+    LoadErrorThenOkStartEnd,
+    /// (loads) a warning, then an error, then a warning, then `<ok/>`
+    LoadWarnErrorWarnOk,
 }
 
-pub const FAULT_KINDS: [FaultKind; 7] = [
+pub const FAULT_KINDS: [FaultKind; 11] = [
     FaultKind::RpcError,
     FaultKind::Truncated,
     FaultKind::WrongRoot,
@@ -42,6 +51,10 @@ pub const FAULT_KINDS: [FaultKind; 7] = [
     FaultKind::UnknownMessageId,
     FaultKind::CloseBeforeReply,
     FaultKind::CloseAfterReply,
+    FaultKind::LoadResultsError,
+    FaultKind::LoadErrorThenOk,
+    FaultKind::LoadErrorThenOkStartEnd,
+    FaultKind::LoadWarnErrorWarnOk,
 ];
 
 #[derive(Debug, Clone, PartialEq, Eq, Serialize, Deserialize)]
@@ -216,6 +229,33 @@ impl FakeJunos {
             Some(FaultKind::CloseAfterReply) => {
                 out.push(reply);
                 res.close = true;
+            }
+            Some(
+                k @ (FaultKind::LoadResultsError
+                | FaultKind::LoadErrorThenOk
+                | FaultKind::LoadErrorThenOkStartEnd
+                | FaultKind::LoadWarnErrorWarnOk),
+            ) => {
+                record.positive_reply = false;
+                if is_load {
+                    let e = |sev: &str| {
+                        format!("<rpc-error>\n<error-type>protocol</error-type>\n<error-tag>operation-failed</error-tag>\n<error-severity>{sev}</error-severity>\n<error-message>injected {sev}</error-message>\n</rpc-error>\n")
+                    };
+                    let inner = match k {
+                        FaultKind::LoadResultsError => {
+                            format!("{}<load-error-count>1</load-error-count>\n", e("error"))
+                        }
+                        FaultKind::LoadErrorThenOk => format!("{}<ok/>\n", e("error")),
+                        FaultKind::LoadErrorThenOkStartEnd => format!("{}<ok></ok>\n", e("error")),
+                        _ => format!("{}{}{}<ok/>\n", e("warning"), e("error"), e("warning")),
+                    };
+                    out.push(reply_wrap(
+                        &id,
+                        &format!("<load-configuration-results>\n{inner}</load-configuration-results>"),
+                    ));
+                } else {
+                    out.push(rpc_error(&id, "injected fault"));
+                }
             }
         }
         self.log.push(record);
